@@ -1535,6 +1535,56 @@ FUNCS['Matrix_NewFromPyBuffer'] = {
         'global:FMT_STR': lambda ex, st, n: ArrV([StrV(x) for x in FMT4])}),
     'config': {'small_malloc_succeeds': True}}
 
+def init_concat(ex, st, params):
+    o = ex.new_obj('L')
+    st.vars[params[0]['id']] = PtrV(None, 0, 'PyObject', obj=o)
+    idv = ex.fresh_int('id_arg', 'int')
+    ex.axioms.append(z3.And(idv.t >= -1, idv.t <= 2))
+    st.vars[params[1]['id']] = idv
+    ex.trusted.add('precondition of dense_concat: L is a list, -1 <= id_arg '
+                   '<= 2 (the caller, matrix_new, passes a list and a '
+                   'typecode id or -1)')
+
+
+def post_concat(ex, finished, extra_obs):
+    """dense_concat(L, id_arg): the typecode rule of the constructor from
+    block lists: with tc given (id_arg >= 0) the result has exactly that
+    typecode (and the call fails when a block has a larger one); the sizes
+    and the element placement are NOT decided (they need summation
+    invariants over the blocks)"""
+    ob = mk_ob(ex, extra_obs)
+    ida = z3.Int('id_arg')
+    nok = 0
+    for st, kind, val in finished:
+        if is_error(val) or not isinstance(val, PtrV) or val.obj is None:
+            continue
+        pc = st.path()
+        if val.null is not None:
+            pc = pc + [z3.Not(val.null)]
+        nok += 1
+        ob('constructor-postcondition', pc, z3.Implies(
+            ida >= 0, val.obj.id == ida),
+           'matrix(block list, tc=...) has the requested typecode')
+    ob('covered', [], z3.BoolVal(nok > 0), 'a success path exists')
+    return {'success_paths': nok}
+
+
+def list_get_size(ex, st, n, args):
+    p = ex.ev(args[0], st)
+    if not isinstance(p, PtrV) or p.obj is None:
+        raise Unsupported('PyList_GET_SIZE of %r' % (p,))
+    ln = p.obj.extra.setdefault('seqlen', z3.Int('len(%s)' % p.obj.name))
+    ex.axioms.append(ln >= 0)
+    return IntV(ln, 'long')
+
+
+FUNCS['dense_concat'] = {
+    'init': init_concat, 'post': post_concat,
+    'externs': dict(COMMON, **{'PyList_GET_SIZE': list_get_size,
+                               'Py_SIZE': list_get_size}),
+    'config': {'allow_unsupported': ['spmatrix', 'SP_', 'sparse',
+                                     'convert_array']}}
+
 FUNCS['matrix_subscr']['externs'] = dict(COMMON, **{
     'create_indexlist': create_indexlist, 'write_num[]': write_num_gather,
     'PySlice_GetIndicesEx': slice_get_indices,
